@@ -335,14 +335,41 @@ def run_stats(case, res):
                 setup_event_logging(os.path.join(out, "run_jobs_batch_2_0_events.log"), mode="a")
                 for i in range(n):
                     lg.log_cpu_stats()
+                    if procs:
+                        # the per-process samples of this interval, one event holding one record per live process
+                        lg.log_process_stats({p: (p, i if alive[p][i] else None) for p in procs})
                 close_event_logging()
                 logging.getLogger("_jade_event").handlers.clear()
-                summ = rm.CpuStatsViewer(EventsSummary(out)).get_stats_summary()
+                summary = EventsSummary(out)
+                summ = rm.CpuStatsViewer(summary).get_stats_summary()
                 if len(summ) != 1:
                     v.append(D.viol("C20:periodic-summary-missing", f"{summ}"))
                 else:
                     for stat, seq in script["cpu"].items():
                         check("periodic CPU", summ[0], stat, seq[1:])
+                if procs:
+                    # consolidated table: exactly one row per (process, interval in which it was alive), fields intact
+                    df = summary.get_dataframe("process_stats")
+                    stats_names = sorted(next(iter(script["process"].values())))
+                    got_rows = sorted((str(r["name"]),) + tuple(float(r[k]) for k in stats_names) for _, r in df.iterrows()) \
+                        if not df.empty else []
+                    want_rows = sorted((p,) + tuple(float(script["process"][p][k][i]) for k in stats_names)
+                                       for p in procs for i in range(n) if alive[p][i])
+                    if got_rows != want_rows:
+                        lost = [r for r in want_rows if r not in got_rows]
+                        v.append(D.viol("C20:periodic-process-rows-differ", f"{len(want_rows)} per-process samples were logged, the "
+                                        f"consolidated table has {len(got_rows)} rows; e.g. not in the table: {lost[:2]}; table starts "
+                                        f"{got_rows[:2]} (columns name, {stats_names})"))
+                    psumm = {e["name"]: e for e in rm.ProcessStatsViewer(summary).get_stats_summary()}
+                    for pname in procs:
+                        taken = [i for i in range(n) if alive[pname][i]]
+                        if pname not in psumm:
+                            v.append(D.viol("C20:periodic-process-summary-missing", f"no periodic summary for process {pname}: {sorted(psumm)}"))
+                            continue
+                        for stat, seq in script["process"][pname].items():
+                            check(f"periodic process {pname}", psumm[pname], stat, [seq[i] for i in taken])
+                    if len(procs) >= 2:
+                        res["classes"].append("periodic_path_several_processes")
             finally:
                 logging.getLogger("_jade_event").handlers.clear()
                 logging.disable(logging.CRITICAL)
